@@ -254,8 +254,13 @@ def _proj_segment_cases(ctx):
     n = 0
     # (bases include projected-coordinate magnitudes - Lambert-93 / UTM scale - where a tolerance tied to the coordinates is metres wide;
     #  feet a few centimetres beyond an end belong to the end point)
-    for (ax, ay), (dx, dy) in itertools.product(((1.0, 2.0), (-3.0, 0.5), (652000.0, 6861000.0)), ((4, 0), (-4, 0), (4, 4), (-4, 4), (4, -4), (-4, -4), (3, 1), (-2, 5), (1, -6), (8, 0.5))):
+    DIRS = ((4, 0), (-4, 0), (4, 4), (-4, 4), (4, -4), (-4, -4), (3, 1), (-2, 5), (1, -6), (8, 0.5))
+    # (at projected-coordinate magnitudes the segments are also metre-, decimetre- and centimetre-long: what a 1 Hz GPS track of a pedestrian holds)
+    SEGS = [((ax, ay), d_) for (ax, ay) in ((1.0, 2.0), (-3.0, 0.5), (652000.0, 6861000.0)) for d_ in DIRS] + \
+           [((900000.0, 6400000.0), (dx * sc, dy * sc)) for sc in (0.25, 0.025, 0.0025) for (dx, dy) in DIRS]
+    for (ax, ay), (dx, dy) in SEGS:
         bx, by = ax + dx, ay + dy
+        dx, dy = bx - ax, by - ay               # (the segment as stored: end points rounded to the grid of doubles at that magnitude)
         L = math.hypot(dx, dy)
         ux, uy = dx / L, dy / L
         for t, off in itertools.product((-0.5, -0.03, 0.0, 0.25, 0.5, 1.0, 1.04, 1.5), (0.0, 1.5, -2.0)):
@@ -270,9 +275,9 @@ def _proj_segment_cases(ctx):
                 raise shape_error('proj_segment not interpretable: %s' % ex, f.loc())
             except (ZeroDivisionError, IndexError, TypeError, ValueError, orders.Raised) as ex:
                 got = '%s: %s' % (type(ex).__name__, ex)
-            scale = max(1.0, abs(ax), abs(ay))                 # (coordinates of 7e6 carry 1e-9 of rounding each)
+            slack = 64 * math.ulp(max(1.0, abs(ax), abs(ay)))       # (coordinates of 7e6 carry 1e-9 of rounding each: 6e-8 of slack there, 1.4e-14 near the origin)
             ok = isinstance(got, (tuple, list)) and len(got) == 3 and all(isinstance(v, (int, float)) for v in got) and \
-                abs(got[0] - wd) <= 1e-9 * max(1.0, wd) * scale and math.hypot(got[1] - wx, got[2] - wy) <= 1e-9 * max(1.0, L) * scale
+                abs(got[0] - wd) <= 1e-9 * max(1.0, wd) + slack and math.hypot(got[1] - wx, got[2] - wy) <= 1e-9 * max(1.0, L) + slack
             if not ok and len(bad) < 3:
                 bad.append({'segment': [ax, ay, bx, by], 'query': [qx, qy], 'position of the foot along the segment (0 = first end, 1 = second end)': t,
                             'returned (distance, x, y)': list(got) if isinstance(got, (tuple, list)) else got, 'nearest point of the closed segment': [wx, wy], 'its distance': wd})
@@ -776,6 +781,33 @@ def rule_M(ctx):
                     bad = {'reference polyline': lname, 'vertices': [list(p_) for p_ in pts], 'query': list(q_), 'form': form,
                            'returned (point, distance, segment index)': [[px(pp), py(pp)] if is_pos(pp) else repr(pp), dd, ee],
                            'distance to the nearest point of the polyline': want, 'violated': why}
+        # the returned points are the caller's: editing them in place (translate, setX) is not an edit of the reference polyline - the same
+        # queries asked again get the same answers
+        if bad is None:
+            first = [(px(r_[0]), py(r_[0]), r_[1], r_[2]) if isinstance(r_, tuple) and len(r_) == 3 and is_pos(r_[0]) else None for r_ in singles]
+            for r_ in singles:
+                if isinstance(r_, tuple) and len(r_) == 3 and is_pos(r_[0]):
+                    r_[0].fields['E'] += 5.0
+                    r_[0].fields['N'] -= 7.0
+            for o_ in out.obs:
+                if isinstance(o_, orders.Obj) and is_pos(o_.fields.get('position')):
+                    o_.fields['position'].fields['E'] += 5.0
+                    o_.fields['position'].fields['N'] -= 7.0
+            try:
+                second = [run(P(*q_), ref) for q_ in qs]
+            except orders.Unsupported as ex:
+                raise shape_error('mapOnTrack not interpretable: %s' % ex, g.loc())
+            except (IndexError, KeyError, TypeError, AttributeError, ZeroDivisionError, ValueError, orders.Raised) as ex:
+                second = [('%s: %s' % (type(ex).__name__, str(ex)[:120]), None, None)] * len(qs)
+            for k, q_ in enumerate(qs):
+                n_cases += 1
+                r_ = second[k]
+                now = (px(r_[0]), py(r_[0]), r_[1], r_[2]) if isinstance(r_, tuple) and len(r_) == 3 and is_pos(r_[0]) else None
+                if first[k] is not None and now != first[k] and bad is None:
+                    bad = {'reference polyline': lname, 'vertices': [list(p_) for p_ in pts], 'query': list(q_),
+                           'history': 'every point returned by the first round of queries was moved by (+5, -7) in place by the caller; the query is asked again',
+                           'first answer (x, y, distance, segment)': list(first[k]), 'second answer': list(now) if now else repr(r_[0]),
+                           'violated': 'the returned point is the caller\'s own object: editing it does not edit the reference polyline'}
     ctx.check(bad is None, 'C20.M', g, 'mapOnTrack returns, for every query, the nearest point of the reference polyline, its distance and the index of a segment '
               'that carries it (%d query/polyline configurations, track and single-coordinate forms)' % n_cases,
               witness=bad, node=g.node, key='mapOnTrack-geometry')
